@@ -3,6 +3,7 @@ package main
 import (
 	"fmt"
 	"go/token"
+	"reflect"
 	"go/types"
 	"os"
 	"sort"
@@ -366,6 +367,13 @@ func checkC19(P *Prog, r *Result) {
 			return true, name
 		}
 		return false, ""
+	}
+	for _, fn := range fns {
+		if cloneShaped(fn) {
+			for _, in := range cloneUnsound(fn) {
+				r.bad("C19/default-not-aliased", fname(fn)+"#clone-returns-its-argument", P.ipos(in), "a recursive clone hands back its own argument where that may hold references: the argument is not known to be nil and not known to be of a scalar kind here (`if v.Len() == 0 { return v }` returns the caller's own empty map, or its empty slice with spare capacity, which the next writer fills in place)")
+			}
+		}
 	}
 	ns := 0
 	for _, fn := range fns {
@@ -799,8 +807,29 @@ func (P *Prog) paramStoredInto(ctor *ssa.Function, prm *ssa.Parameter, f *types.
 	return found
 }
 
-// isDeepCloneFn: a module function that calls itself and allocates containers with reflect: a recursive clone.
+// isDeepCloneFn: a module function that calls itself and allocates containers with reflect - a recursive clone - and
+// is *sound* as one: wherever it returns its own argument instead of a copy, that argument is known to be nil
+// (`if v.IsNil() { return v }`) or known not to be of a kind that holds references (the default of its Kind switch,
+// after slice, map, pointer, interface, array and struct were taken out). `if v.Len() == 0 { return v }` hands back the
+// caller's own empty map, or its empty slice with spare capacity.
+var deepCloneMemo = map[*ssa.Function]bool{}
+var theProg *Prog
+
 func isDeepCloneFn(f *ssa.Function) bool {
+	if f == nil || f.Blocks == nil || !inModule(funcPkgPath(f)) {
+		return false
+	}
+	if v, ok := deepCloneMemo[f]; ok {
+		return v
+	}
+	deepCloneMemo[f] = false
+	res := cloneShaped(f) && len(cloneUnsound(f)) == 0
+	deepCloneMemo[f] = res
+	return res
+}
+
+// cloneShaped: calls itself and allocates containers with reflect.
+func cloneShaped(f *ssa.Function) bool {
 	if f == nil || f.Blocks == nil || !inModule(funcPkgPath(f)) {
 		return false
 	}
@@ -816,4 +845,46 @@ func isDeepCloneFn(f *ssa.Function) bool {
 		}
 	})
 	return self && alloc
+}
+
+// cloneUnsound: the returns of a clone-shaped function that hand back the argument itself where it may hold references.
+func cloneUnsound(f *ssa.Function) []ssa.Instruction {
+	if theProg == nil || len(f.Params) != 1 {
+		return nil
+	}
+	prm := ssa.Value(f.Params[0])
+	var bad []ssa.Instruction
+	eachInstr(f, func(b *ssa.BasicBlock, _ int, in ssa.Instruction) {
+		rt, ok := in.(*ssa.Return)
+		if !ok || len(rt.Results) != 1 {
+			return
+		}
+		v := cv(rt.Results[0])
+		if u, isU := v.(*ssa.UnOp); isU && u.Op == token.MUL {
+			// the spilled parameter read back
+			if al, isAl := u.X.(*ssa.Alloc); isAl {
+				if sts := storesTo(al); len(sts) == 1 && cv(sts[0].Val) == prm {
+					v = prm
+				}
+			}
+		}
+		if v != prm {
+			return
+		}
+		for _, gd := range guardsOf(b) {
+			if c, isC := gd.If.Cond.(*ssa.Call); isC && gd.True {
+				if ci := callOf(c); ci.static != nil && isPkgFunc(ci.static, "reflect") && ci.static.Name() == "IsNil" {
+					return
+				}
+			}
+		}
+		_, not := theProg.kindFactsFrom(guardsOf(b), prm)
+		for _, k := range []int64{int64(reflect.Slice), int64(reflect.Map), int64(reflect.Pointer), int64(reflect.Interface), int64(reflect.Array), int64(reflect.Struct)} {
+			if !not[k] {
+				bad = append(bad, in)
+				return
+			}
+		}
+	})
+	return bad
 }
